@@ -119,7 +119,7 @@ func (e *Eng) findLoops() error {
 	if e.fc != nil {
 		for n := range e.fc.Loops {
 			if n < 1 || n > len(e.loopList) {
-				return fmt.Errorf("contract for %s refers to loop %d but the function has %d loops", e.fc.Key, n, len(e.loopList))
+				e.missingLoops = append(e.missingLoops, n)
 			}
 		}
 	}
@@ -229,6 +229,13 @@ func (e *Eng) runOnce(loopMods map[int]map[string]bool) map[int]map[string]bool 
 		}
 		if len(e.fc.Requires) > 0 {
 			e.cover(st, "requires", e.allProps(), nil, "the precondition is satisfiable")
+		}
+	}
+	sort.Ints(e.missingLoops)
+	for _, n := range e.missingLoops {
+		if !e.collect {
+			o := e.addObl("contract", fmt.Sprintf("loop%d", n), e.allProps(), "", nil, fmt.Sprintf("the contract has clauses for loop %d but the function has only %d loops", n, len(e.loopList)), false)
+			o.Unsupported = "contract refers to a loop that no longer exists"
 		}
 	}
 	e.assumePkgInvs(st)
@@ -682,6 +689,14 @@ func (e *Eng) loopHead(fr *Frame, li *loopInfo, st *State, loopMods map[int]map[
 		}
 	}
 	li.headState = st.clone()
+	if e.fc != nil && len(e.fc.Terminates) > 0 && li.rangeIdx == nil && (li.spec == nil || li.spec.Decreases == nil) {
+		var props []string
+		for p := range e.fc.Terminates {
+			props = append(props, p)
+		}
+		sort.Strings(props)
+		e.oblige(st, "decreases", fmt.Sprintf("loop%d.missing", li.ord), props, "false", firstInstr(h), "a loop of a function declared `terminates` has no variant (range loops over slices are exempt)")
+	}
 }
 
 func phiName(p *ssa.Phi) string {
